@@ -60,6 +60,12 @@ func (in c16Input) yaml() string {
 		fmt.Fprintf(&b, "    liveness_probe:\n      http_get:\n        host: %q\n        path: %q\n        port: \"404{{.PC_REPLICA_NUM}}\"\n", in.tpl("host"), "/"+in.tpl("path"))
 	}
 	b.WriteString("  x:\n    command: \"plain\"\n  y:\n    command: \"other {{.PC_REPLICA_NUM}}\"\n    replicas: 2\n")
+	if in.GlobalVar {
+		// u overrides a project-level variable locally, v and z use the project-level value
+		b.WriteString("  u:\n    command: \"u {{.G}} {{.N}}\"\n    description: \"{{.G}}\"\n    vars:\n      G: local-u\n      N: 7\n")
+		b.WriteString("  v:\n    command: \"v {{.G}} {{.N}}\"\n    description: \"{{.G}}\"\n")
+		b.WriteString("  z:\n    command: \"z {{.G}} {{.N}}\"\n    working_dir: \"/{{.G}}\"\n")
+	}
 	return b.String()
 }
 
@@ -192,6 +198,18 @@ func c16One(o *E2Out, dir string, in c16Input, full bool) {
 		for key, pc := range prj.Processes {
 			if pc.Name == "" || pc.Namespace == "" || pc.Replicas < 1 || pc.LaunchTimeout <= 0 {
 				o.violation("C16", "default:missing", fmt.Sprintf("process %s: name %q namespace %q replicas %d launch timeout %d", key, pc.Name, pc.Namespace, pc.Replicas, pc.LaunchTimeout), in)
+			}
+			if in.GlobalVar {
+				switch pc.Name {
+				case "u":
+					if pc.Command != "u local-u 7" || pc.Description != "local-u" {
+						o.violation("C16", "rendered:local-override", fmt.Sprintf("process u (local vars G=local-u N=7) rendered as %q / %q (map order %s)", pc.Command, pc.Description, m), in)
+					}
+				case "v", "z":
+					if pc.Command != pc.Name+" gval 42" {
+						o.violation("C16", "rendered:leaked-vars", fmt.Sprintf("process %s uses the project-level G and N but was rendered as %q (map order %s)", pc.Name, pc.Command, m), in)
+					}
+				}
 			}
 			if pc.Name != "w" {
 				continue
